@@ -13,7 +13,7 @@ from .. import gen, lib, ref
 from ..lib import call
 
 PROP = "C03"
-PLAN = {"quick": (1280 + 2000, 200), "thorough": (20480 + 30000, 2400)}
+PLAN = {"quick": (1280 + 2000, 200), "thorough": (20480 + 15000, 2400)}
 LARGE = (0.01, 64)  # (share, largest size) of the large class of gen.kv: 17+ control points, degree up to 8
 RULE = ("case = constructor literals (valid and invalid) + an initial vector + a history of 5-30 (quick) / up to 60 "
         "(thorough) symbolic public KnotVector operations, ~30% aimed at being invalid, over a pool of vectors that "
